@@ -503,8 +503,8 @@ pub fn run_check(mut ctx: Ctx) -> ! {
         Part::new(
             "collections_lockstep",
             "command sequences (<=40 steps quick / <=50 thorough; a step is a committed transaction of 0-5 writes/tx-reads or one direct read) over a pool of 8 operations with three extension types, 3 topics x 3 authors x 3 data ids, 3 cursor names with generated states, compared step by step with in-memory map/set models; non-trivial = some operation id sees insert -> delete -> insert, or a cursor is overwritten",
-            800,
-            15_000,
+            1_500,
+            20_000,
         )
         .min_nontrivial(0.3),
         move || case(max_steps),
